@@ -58,6 +58,12 @@ SWAPS = [
     (r"\.is_finite\(\)", ".is_nan() == false", "method"), (r"\.is_nan\(\)", ".is_infinite()", "method"),
     (r"\bSome\(16\)", "Some(8)", "const"), (r"\.unwrap_or\(0\)", ".unwrap_or(1)", "const"),
     (r"\.trim_matches\(", ".trim_start_matches(", "method"), (r"\.starts_with\(", ".ends_with(", "method"), (r"\.contains\(", ".starts_with(", "method"),
+    # second phase: operand order, off-by-one iteration, dropped conversions
+    (r"\((\w+), (\w+)\)", r"(\2, \1)", "argswap"), (r"\((&\w+), (&\w+)\)", r"(\2, \1)", "argswap"),
+    (r"\.iter\(\)", ".iter().skip(1)", "iter"), (r"\.into_iter\(\)", ".into_iter().skip(1)", "iter"), (r"\.chars\(\)", ".chars().skip(1)", "iter"),
+    (r"\.enumerate\(\)", ".enumerate().skip(1)", "iter"), (r"\.to_lowercase\(\)", "", "method"), (r"\.trim\(\)", "", "method"), 
+    (r"\bas i64\b", "as i32 as i64", "cast"), (r"\bas u64\b", "as u32 as u64", "cast"), (r"\bas usize\b", "as u8 as usize", "cast"), (r"\bas f64\b", "as f32 as f64", "cast"),
+    (r"\bi64\b", "i32", "type"), (r"\bf64::INFINITY\b", "f64::MAX", "const"), (r"\bf64::NAN\b", "0.0", "const"),
     (r"\bis None\b", "is not None", "py"), (r"\bis not None\b", "is None", "py"), (r" or ", " and ", "py"), (r" and ", " or ", "py"), (r"\bnot ", "", "py"),
 ]
 
@@ -144,9 +150,12 @@ def list_mutants(repo, seed, max_per_file):
                     ctx = masked[max(0, m.start() - 2):m.end() + 2]
                     if kind.startswith("rel") and ("->" in ctx or "=>" in ctx or "<'" in ctx):
                         continue
-                    new = code[:m.start()] + rep + code[m.end():] + line[len(code):]
+                    new = code[:m.start()] + m.expand(rep) + code[m.end():] + line[len(code):]
                     if new != line:
                         cands.append({"file": f, "line": i + 1, "col": m.start(), "kind": kind, "old": line.strip(), "new": new.strip(), "new_line": new})
+            st = code.strip()
+            if not f.endswith(".py") and st.endswith(";") and not st.startswith(("let ", "return", "use ", "pub ", "const ", "static ", "type ", "}")) and "=" not in st.split("(")[0].replace("==", ""):
+                cands.append({"file": f, "line": i + 1, "col": 0, "kind": "delete", "old": line.strip(), "new": "// (statement deleted)", "new_line": ""})
         rng.shuffle(cands)
         # stratify: keep at most max_per_file, spread over kinds
         by_kind = {}
@@ -209,6 +218,8 @@ def run_lane(args):
                     verdict = "repo_tests"
             if verdict is None:
                 order = FIRST.get(m["file"], []) + [p for p in ALL if p not in FIRST.get(m["file"], [])]
+                if args.relevant_only:
+                    order = FIRST.get(m["file"], []) + [p for p in ["C01", "C03", "C04", "C17"] if p not in FIRST.get(m["file"], [])]
                 tried = []
                 for p in order:
                     rc, out = sh([os.path.join(args.verif, "check"), p, "quick"], args.verif, env, 3600)
@@ -220,7 +231,7 @@ def run_lane(args):
                         detail = (v[0] if v else "") + " | " + (nxt[0].strip()[:300] if nxt else "")
                         break
                 if verdict is None:
-                    verdict = "SURVIVOR"
+                    verdict = "SURVIVOR-relevant" if args.relevant_only else "SURVIVOR"
                 rec["tried"] = " ".join(tried)
             rec["verdict"] = verdict
             rec["detail"] = detail
@@ -244,10 +255,14 @@ ap.add_argument("--mutants")
 ap.add_argument("--lane", default="0/1")
 ap.add_argument("--out")
 ap.add_argument("--workers", type=int, default=4)
+ap.add_argument("--kinds", default="", help="comma-separated kinds to keep when listing (default all)")
+ap.add_argument("--relevant-only", action="store_true", help="run only the checks named for the file plus C01 C03 C04 C17 (a survivor of those is reported as SURVIVOR-relevant)")
 a = ap.parse_args()
 if a.cmd == "list":
+    kinds = set(k for k in a.kinds.split(",") if k)
     for c in list_mutants(a.repo, a.seed, a.max_per_file):
-        print(json.dumps(c))
+        if not kinds or c["kind"] in kinds:
+            print(json.dumps(c))
 else:
     if os.path.realpath(a.repo) == "/repo":
         sys.exit("refusing to mutate /repo itself: give a scratch worktree")
